@@ -33,7 +33,7 @@ UNIFORM_STYLES = [
 
 
 def units(tier):
-    us = S.doc_units(["S1", "S2", "S3", "S4", "S5", "ROOT"], tier)
+    us = S.doc_units(["S1", "S1n", "S2", "S3", "S4", "S5", "ROOT"], tier)
     us = [("API", tier, i) for i in range(16)] + us     # slow units first
     return us
 
